@@ -26,8 +26,8 @@ def run(c):
     c.stage_a(sd, "MC_C06", "MC_C06", timeout=2400)
     subst = None
     if thorough:
-        subst = dict(MaxBits=1030, MaxBytes=260, BigBits="{2047, 2048, 2049, 4095, 4096, 4097, 16384, 65535}", BigBytes="{511, 512, 513, 1024, 4096}",
-                     GridBits="{0, 1, 7, 8, 31, 32, 33, 40, 63, 64, 65, 67, 128, 200}", Reps=3)
+        subst = dict(MaxBits=2100, MaxBytes=300, BigBits="{2047, 2048, 2049, 4095, 4096, 4097, 16384, 65535, 131072}", BigBytes="{511, 512, 513, 1024, 4096}",
+                     GridBits="{0, 1, 7, 8, 31, 32, 33, 40, 63, 64, 65, 67, 128, 200}", Reps=4)
     cases, events = run_value_conformance(c, "cipher", "Trace_C06", "MC_C06_gen", "MC_C06_gen", subst, shards=14 if thorough else 12)
     c.cov["distinct_nontrivial"] = len(c._distinct)
     c.cov["rule"] = ("cases = calls of the real ciphering entry points; distinct non-trivial = distinct (operation, algorithm, key, COUNT, bearer, "
